@@ -65,7 +65,53 @@ class MergeFlow(Engine):
             func, n, file, line = self.attrib(st, node)
             st.mon['mutated'] = f'{what} at {func}: {norm(n) if n is not None else ""}'
 
+    # -- loops that apply one operation to every element of a list of resolved nodes (three-phase moves)
+    def _fold_loop(self, st: State, depth, spec):
+        L = getattr(spec, 'listsym', None)
+        if L is None or L not in st.heap or st.get(L).kind != 'accum':
+            return
+        log = (st.mon.get('itlog') or {}).get(depth, ())
+        fl = st.mon.get('sym:fromlist') or {}
+        ops = [r for r in log if r[0] in ('remove', 'insert', 'append', 'setitem')]
+        if len(ops) == 1 and fl.get(ops[0][2]) == L:
+            op = 'insert' if ops[0][0] == 'append' else ops[0][0]
+        elif not ops:
+            op = 'none'
+        else:
+            op = 'mixed'
+        cur = dict(st.mon.get('loopop') or {})
+        prev = cur.get(depth)
+        cur[depth] = op if prev in (None, op) else 'mixed'
+        st.mon['loopop'] = cur
+
+    def loop_iter_start(self, st, depth, spec, count):
+        if count > 0:
+            self._fold_loop(st, depth, spec)
+        super().loop_iter_start(st, depth, spec, count)
+
+    def loop_exit(self, st, depth, spec, count):
+        if count > 0:
+            self._fold_loop(st, depth, spec)
+        cur = dict(st.mon.get('loopop') or {})
+        status = cur.pop(depth, None)
+        st.mon['loopop'] = cur
+        L = getattr(spec, 'listsym', None)
+        if status in ('remove', 'insert', 'mixed') and L in st.heap:
+            ops = tuple(sorted((st.mon.get('lstops') or ()) + ((self.describe(Ref('list', L), st), status),)))[-8:]
+            st.mon['lstops'] = ops
+        super().loop_exit(st, depth, spec, count)
+
+    def loop_done(self, st, depth):
+        cur = st.mon.get('loopop')
+        if cur and depth in cur:
+            cur = dict(cur)
+            del cur[depth]
+            st.mon['loopop'] = cur
+        super().loop_done(st, depth)
+
     def bump(self, st: State, n, d):
+        if isinstance(n, Ref) and n.sym in (st.mon.get('sym:fromlist') or {}):
+            return      # element of a list of resolved nodes: accounted for per loop (lstops)
         if isinstance(n, Ref) and n.kind == 'elem' and st.get(n.sym).prov == 'RO':
             m = dict(st.mon.get('sym:delta') or {})
             m[n.sym] = max(-2, min(2, m.get(n.sym, 0) + d))
@@ -120,12 +166,29 @@ class MergeFlow(Engine):
         if what == 'remove' and isinstance(n, Ref) and n.kind == 'elem':
             ne: ElemE = st.get(n.sym)
             if ne.prov == 'RO':
-                named = ne.lookup is not None or (kind == 'ROREPLACE' and ne.origin[0] == 'first')
+                named = ne.lookup is not None or (kind == 'ROREPLACE' and ne.origin[0] == 'first') or self.located_by_message(n.sym, st)
                 if not named:
                     self.find_('FRAME', st, node, f'remove(node={self.describe(n, st)})',
                                'the removed node was not located through an ID (or tag) carried by the message')
                 if kind == 'META' and ne.tag == 'story':
                     self.find_('FRAME', st, node, f'remove(node={self.describe(n, st)})', 'metadata replacement removes a story')
+
+    def located_by_message(self, nsym, st: State) -> bool:
+        """A node picked by a hand-written search loop counts as named by the message when the path
+        established an equality between a text under that node and a text carried by the message."""
+        ts = st.mon.get('textsyms') or {}
+        inv = {v: k for k, v in ts.items()}
+        for f in st.facts:
+            if f[0] != 'streq':
+                continue
+            ea, eb = inv.get(f[1]), inv.get(f[2])
+            if ea is None or eb is None or ea not in st.heap or eb not in st.heap:
+                continue
+            for x, y in ((ea, eb), (eb, ea)):
+                ex, ey = st.get(x), st.get(y)
+                if (x == nsym or ex.parent == nsym) and ex.prov == 'RO' and ey.prov in ('MSG', 'COPY'):
+                    return True
+        return False
 
     def on_cmp_fork(self, st, node, left, right, taken):
         if not taken:
@@ -251,6 +314,11 @@ class MergeFlow(Engine):
             return
         if entry.parent is not None and entry.parent != parent.sym and not self.same_node(entry.parent, parent.sym, st):
             self.find_('IDX-DOMAIN', st, node, cons, 'the index was computed in a different parent element')
+            return
+        if entry.kind == 'end' and entry.slack < 0:
+            self.find_('IDX-FRESH', st, node, cons,
+                       f'the position is {-entry.slack} before the current end of the parent (an end position that was '
+                       'decremented or overtaken by insertions): the node does not land at the end')
             return
         if entry.kind == 'stale':
             self.find_('IDX-FRESH', st, node, cons, entry.why)
@@ -458,6 +526,18 @@ class MergeFlow(Engine):
             self.findings.setdefault(fd.key, fd)
         deltas = [(self.describe(Ref('elem', sym), s), d) for sym, d in (s.mon.get('sym:delta') or {}).items() if d != 0 and sym in s.heap]
         deltas += list(s.mon.get('dead_delta') or ())
+        lst = {}
+        for descr, op in (s.mon.get('lstops') or ()):
+            lst.setdefault(descr, []).append(op)
+        if kind in ('MOVE', 'SWAP'):
+            for descr, ops in sorted(lst.items()):
+                if 'mixed' in ops or ops.count('remove') != ops.count('insert'):
+                    self.find_at_merge('CONSERVE', f'elements of {descr}: loops apply {ops}',
+                                       'every resolved node must be removed exactly once and re-inserted exactly once')
+        elif kind == 'DELETE':
+            for descr, ops in sorted(lst.items()):
+                if 'insert' in ops:
+                    self.find_at_merge('CONSERVE', f'elements of {descr}: loops apply {ops}', 'a delete must not add nodes')
         if kind in ('MOVE', 'SWAP'):
             for descr, d in sorted(set(deltas)):
                 self.find_at_merge('CONSERVE', f'{descr}: net {d:+d}',
